@@ -402,7 +402,13 @@ def splice_fn(repo, file, item_path, sections, trait=None, nth=0, opts=(), canar
                 raise AnchorLost('for-loop header without an iterator expression')
             ed.blank(kw, in_idx)
             ed.ins_before(code[0], '{ let mut cv_it%d = (' % n)
-            ed.ins_after(code[-1], ').into_iter(); while let Some(%s) = cv_it%d.next() ' % (pat, n))
+            m_ref = re.fullmatch(r'&\s*([A-Za-z_][A-Za-z0-9_]*)', pat)
+            if m_ref:
+                # `for &x in ..`: the reference pattern (outside Verus) is written as a binding followed by `let x = *binding;`
+                ed.ins_after(code[-1], ').into_iter(); while let Some(cv_ref%d) = cv_it%d.next() ' % (n, n))
+                ed.ins_after(lopen, ' let %s = *cv_ref%d; ' % (m_ref.group(1), n))
+            else:
+                ed.ins_after(code[-1], ').into_iter(); while let Some(%s) = cv_it%d.next() ' % (pat, n))
             ed.ins_after(lclose, ' }')
             rules['X2c-for'] = rules.get('X2c-for', 0) + 1
             dropped.append('%s:%d `for %s in ..` written as `while let Some(%s) = it.next()` over `.into_iter()` (X2c)' % (file, toks[kw].line, pat, pat))
